@@ -1,8 +1,8 @@
-import SciVerif.Lemmas.C15
+import SciVerif.Lemmas.C15b
 
 /-! C15, arbitrary line sequences: the stack of open branches mirrors the declarative
     "latest line indented no deeper than `k`" description (`specOpenAt`), hence every
-    misplaced `@else`/`@end` makes the machine fail. -/
+    misplaced clause line makes the machine fail. -/
 namespace SciVerif.C15
 
 /-- Indents strictly increase towards the top of the stack. -/
@@ -18,18 +18,18 @@ theorem sortedSt_closeGE (k : Nat) {st : List Branch} (h : SortedSt st) : Sorted
     · simpa [closeGE, hk] using ih h.2
     · simpa [closeGE, hk] using h
 
-/-- The clause type of the branch open at exactly indent `k` (after closing everything deeper). -/
-def openAt (k : Nat) (st : List Branch) : Option CType :=
+/-- The current clause of the branch open at exactly indent `k` (after closing everything deeper). -/
+def openTop (k : Nat) (st : List Branch) : Option Case :=
   match closeGE (k + 1) st with
-  | b :: _ => if b.cur.indent = k then some b.cur.ctype else none
+  | b :: _ => if b.cur.indent = k then some b.cur else none
   | [] => none
 
-theorem openAt_closeGE (k i : Nat) (st : List Branch) :
-    openAt k (closeGE i st) = if i ≤ k then none else openAt k st := by
+theorem openTop_closeGE (k i : Nat) (st : List Branch) :
+    openTop k (closeGE i st) = if i ≤ k then none else openTop k st := by
   by_cases h : i ≤ k
   · simp only [h, if_true]
     have hb : Below (k + 1) (closeGE i st) := (closeGE_below i st).mono (by omega)
-    unfold openAt
+    unfold openTop
     rw [closeGE_of_below hb]
     cases hx : closeGE i st with
     | nil => rfl
@@ -38,20 +38,20 @@ theorem openAt_closeGE (k i : Nat) (st : List Branch) :
       have hne : ¬ b.cur.indent = k := by omega
       simp [hne]
   · simp only [h, if_false]
-    unfold openAt
+    unfold openTop
     rw [closeGE_closeGE_le (by omega)]
 
-theorem openAt_push (k i : Nat) (b : Branch) (X : List Branch) (hi : b.cur.indent = i) :
-    openAt k (b :: X) = if i ≤ k then (if i = k then some b.cur.ctype else none) else openAt k X := by
+theorem openTop_push (k i : Nat) (b : Branch) (X : List Branch) (hi : b.cur.indent = i) :
+    openTop k (b :: X) = if i ≤ k then (if i = k then some b.cur else none) else openTop k X := by
   subst hi
   by_cases h : b.cur.indent ≤ k
   · have h1 : ¬ k + 1 ≤ b.cur.indent := by omega
-    simp [openAt, closeGE, h1, h]
+    simp [openTop, closeGE, h1, h]
   · have h1 : k + 1 ≤ b.cur.indent := by omega
-    simp [openAt, closeGE, h1, h]
+    simp [openTop, closeGE, h1, h]
 
-theorem openAt_below (k i : Nat) (X : List Branch) (hX : Below i X) (h : i ≤ k) : openAt k X = none := by
-  unfold openAt
+theorem openTop_below (k i : Nat) (X : List Branch) (hX : Below i X) (h : i ≤ k) : openTop k X = none := by
+  unfold openTop
   rw [closeGE_of_below (hX.mono (by omega))]
   cases X with
   | nil => rfl
@@ -59,6 +59,22 @@ theorem openAt_below (k i : Nat) (X : List Branch) (hX : Below i X) (h : i ≤ k
     have := hX b rfl
     have hne : ¬ b.cur.indent = k := by omega
     simp [hne]
+
+theorem openTop_some {i : Nat} {st : List Branch} {c : Case} (h : openTop i st = some c) :
+    ∃ b bs, closeGE (i + 1) st = b :: bs ∧ b.cur.indent = i ∧ b.cur = c := by
+  unfold openTop at h
+  cases hc : closeGE (i + 1) st with
+  | nil => simp [hc] at h
+  | cons b bs =>
+    simp only [hc] at h
+    by_cases hi : b.cur.indent = i
+    · simp only [hi, if_true, Option.some.injEq] at h
+      exact ⟨b, bs, rfl, hi, h⟩
+    · simp [hi] at h
+
+theorem openTop_of_top {i : Nat} {st : List Branch} {b : Branch} {bs : List Branch}
+    (h : closeGE (i + 1) st = b :: bs) (hi : b.cur.indent = i) : openTop i st = some b.cur := by
+  simp [openTop, h, hi]
 
 /-- `same_branch = False`: everything indented at least like the clause was closed. -/
 theorem closeFor_false {i : Nat} {p : List Comp} {st : List Branch} (h : (closeFor i p st).2 = false) :
@@ -75,10 +91,11 @@ theorem closeFor_false {i : Nat} {p : List Comp} {st : List Branch} (h : (closeF
         simp only [closeFor, h1, h2, if_false] at h ⊢
         simp [closeGE, this, ih h]
 
-/-- `same_branch = True`: after closing everything deeper, a branch of exactly this indent is on top. -/
+/-- `same_branch = True`: after closing everything deeper, a branch of exactly this indent
+    and path is on top. -/
 theorem closeFor_true {i : Nat} {p : List Comp} {st : List Branch} (hs : SortedSt st)
     (h : (closeFor i p st).2 = true) :
-    ∃ b bs, closeGE (i + 1) st = b :: bs ∧ b.cur.indent = i ∧ (closeFor i p st).1 = b :: bs := by
+    ∃ b bs, closeGE (i + 1) st = b :: bs ∧ b.cur.indent = i ∧ b.cur.path = p ∧ (closeFor i p st).1 = b :: bs := by
   induction st with
   | nil => simp [closeFor] at h
   | cons b bs ih =>
@@ -86,11 +103,11 @@ theorem closeFor_true {i : Nat} {p : List Comp} {st : List Branch} (hs : SortedS
     · simp [closeFor, h1] at h
     · by_cases h2 : b.cur.indent = i ∧ b.cur.path = p
       · have : ¬ i + 1 ≤ b.cur.indent := by omega
-        exact ⟨b, bs, by simp [closeGE, this], h2.1, by simp [closeFor, h2]⟩
+        exact ⟨b, bs, by simp [closeGE, this], h2.1, h2.2, by simp [closeFor, h2]⟩
       · simp only [closeFor, h1, h2, if_false] at h ⊢
         by_cases h3 : i + 1 ≤ b.cur.indent
-        · obtain ⟨b', bs', e1, e2, e3⟩ := ih hs.2 h
-          exact ⟨b', bs', by simp [closeGE, h3, e1], e2, e3⟩
+        · obtain ⟨b', bs', e1, e2, e3, e4⟩ := ih hs.2 h
+          exact ⟨b', bs', by simp [closeGE, h3, e1], e2, e3, e4⟩
         · -- a branch of this indent but another path: nothing of this indent below it
           exfalso
           have hbi : b.cur.indent = i := by omega
@@ -101,24 +118,6 @@ theorem closeFor_true {i : Nat} {p : List Comp} {st : List Branch} (hs : SortedS
             have := hbel c rfl
             simp [closeFor, this] at h
 
-theorem openAt_of_top {i : Nat} {st : List Branch} {b : Branch} {bs : List Branch}
-    (h : closeGE (i + 1) st = b :: bs) (hi : b.cur.indent = i) : openAt i st = some b.cur.ctype := by
-  simp [openAt, h, hi]
-
-/-- What a clause line does to the stack, in one of two shapes. -/
-inductive Effect (i : Nat) (path : List Comp) (st : List Branch) : Kw → List Branch → Prop
-  | push (c : Bool) (nb : Branch) (X : List Branch) (hi : nb.cur.indent = i) (ht : nb.cur.ctype = .case)
-      (hX : Below i X) (hs : SortedSt X) (hk : ∀ k, k < i → openAt k X = openAt k st)
-      (hp : nb.cur.path = path) (hsub : ∀ b ∈ X, b ∈ st) :
-      Effect i path st (.case c) (nb :: X)
-  | pushElse (nb : Branch) (X : List Branch) (hi : nb.cur.indent = i) (ht : nb.cur.ctype = .els)
-      (hX : Below i X) (hs : SortedSt X) (hk : ∀ k, k < i → openAt k X = openAt k st)
-      (ho : openAt i st = some .case) (hp : nb.cur.path = path) (hsub : ∀ b ∈ X, b ∈ st) :
-      Effect i path st .els (nb :: X)
-  | pop (X : List Branch) (hX : Below i X) (hs : SortedSt X)
-      (hk : ∀ k, k < i → openAt k X = openAt k st) (ho : openAt i st ≠ none) (hsub : ∀ b ∈ X, b ∈ st) :
-      Effect i path st .fin X
-
 theorem mem_closeGE {k : Nat} {st : List Branch} {b : Branch} (h : b ∈ closeGE k st) : b ∈ st := by
   induction st with
   | nil => simp [closeGE] at h
@@ -128,17 +127,32 @@ theorem mem_closeGE {k : Nat} {st : List Branch} {b : Branch} (h : b ∈ closeGE
       exact List.mem_cons_of_mem _ (ih h)
     · simpa [closeGE, hk] using h
 
-theorem openAt_tail {i k : Nat} {st : List Branch} {b : Branch} {bs : List Branch}
+/-- What a clause line does to the stack, in one of three shapes. -/
+inductive Effect (i : Nat) (path : List Comp) (st : List Branch) : Kw → List Branch → Prop
+  | push (c : Bool) (nb : Branch) (X : List Branch) (hi : nb.cur.indent = i) (ht : nb.cur.ctype = .case)
+      (hX : Below i X) (hs : SortedSt X) (hk : ∀ k, k < i → openTop k X = openTop k st)
+      (hp : nb.cur.path = path) :
+      Effect i path st (.case c) (nb :: X)
+  | pushElse (nb : Branch) (X : List Branch) (hi : nb.cur.indent = i) (ht : nb.cur.ctype = .els)
+      (hX : Below i X) (hs : SortedSt X) (hk : ∀ k, k < i → openTop k X = openTop k st)
+      (ho : ∃ c0, openTop i st = some c0 ∧ c0.ctype = .case ∧ c0.path = path) (hp : nb.cur.path = path) :
+      Effect i path st .els (nb :: X)
+  | pop (X : List Branch) (hX : Below i X) (hs : SortedSt X)
+      (hk : ∀ k, k < i → openTop k X = openTop k st)
+      (ho : ∃ c0, openTop i st = some c0 ∧ c0.path = path) :
+      Effect i path st .fin X
+
+theorem openTop_tail {i k : Nat} {st : List Branch} {b : Branch} {bs : List Branch}
     (h : closeGE (i + 1) st = b :: bs) (hi : b.cur.indent = i) (hk : k < i) :
-    openAt k bs = openAt k st := by
-  have h1 := openAt_closeGE k (i + 1) st
+    openTop k bs = openTop k st := by
+  have h1 := openTop_closeGE k (i + 1) st
   have h2 : ¬ i + 1 ≤ k := by omega
   simp only [h2, if_false] at h1
-  rw [← h1, h, openAt_push k i b bs hi]
+  rw [← h1, h, openTop_push k i b bs hi]
   have : ¬ i ≤ k := by omega
   simp [this]
 
-theorem solveCase_effect {s s' : St} {ps : List (Nat × Comp)} {i : Nat} {kw : Kw}
+theorem solveCase_effect {s s' : St} {ps : List (Nat × List Comp)} {i : Nat} {kw : Kw}
     (hs : SortedSt s.state) (h : solveCase s ps i kw = .ok s') :
     Effect i (fullName ps).dropLast s.state kw s'.state ∧ s'.parents = ps := by
   unfold solveCase at h
@@ -152,32 +166,30 @@ theorem solveCase_effect {s s' : St} {ps : List (Nat × Comp)} {i : Nat} {kw : K
     have hX : X = closeGE i s.state := by
       have := closeFor_false (i := i) (p := (fullName ps).dropLast) (st := s.state) (by rw [hr])
       rw [hr] at this; exact this
-    have hk : ∀ k, k < i → openAt k X = openAt k s.state := by
+    have hk : ∀ k, k < i → openTop k X = openTop k s.state := by
       intro k hk
-      rw [hX, openAt_closeGE]
+      rw [hX, openTop_closeGE]
       have : ¬ i ≤ k := by omega
       simp [this]
     cases kw with
     | case c =>
       simp only [Bool.false_and, Bool.false_eq_true, if_false, Except.ok.injEq] at h
       subst h
-      exact ⟨.push c _ X rfl rfl (hX ▸ closeGE_below i s.state) (hX ▸ sortedSt_closeGE i hs) hk rfl
-        (fun b hb => mem_closeGE (hX ▸ hb)), rfl⟩
+      exact ⟨.push c _ X rfl rfl (hX ▸ closeGE_below i s.state) (hX ▸ sortedSt_closeGE i hs) hk rfl, rfl⟩
     | els => simp at h
     | fin => simp at h
     | group => simp at h
     | node m v => simp at h
+    | prop p => simp at h
   | true =>
-    obtain ⟨b, bs, e1, e2, e3⟩ := closeFor_true (i := i) (p := (fullName ps).dropLast) hs (by rw [hr])
-    rw [hr] at e3
-    simp only at e3
-    subst e3
+    obtain ⟨b, bs, e1, e2, e3, e4⟩ := closeFor_true (i := i) (p := (fullName ps).dropLast) hs (by rw [hr])
+    rw [hr] at e4
+    simp only at e4
+    subst e4
     have hsort : SortedSt (b :: bs) := e1 ▸ sortedSt_closeGE (i + 1) hs
     have hbel : Below i bs := e2 ▸ hsort.1
-    have hk : ∀ k, k < i → openAt k bs = openAt k s.state := fun k hk => openAt_tail e1 e2 hk
-    have hopen := openAt_of_top e1 e2
-    have hsub : ∀ b' ∈ bs, b' ∈ s.state := fun b' hb' =>
-      mem_closeGE (k := i + 1) (by rw [e1]; exact List.mem_cons_of_mem _ hb')
+    have hk : ∀ k, k < i → openTop k bs = openTop k s.state := fun k hk => openTop_tail e1 e2 hk
+    have hopen := openTop_of_top e1 e2
     cases kw with
     | case c =>
       by_cases hel : topIsElse (b :: bs) = true
@@ -185,7 +197,7 @@ theorem solveCase_effect {s s' : St} {ps : List (Nat × Comp)} {i : Nat} {kw : K
       · simp only [Bool.true_and, hel, Bool.false_eq_true, if_false, if_true, switchCase,
           Except.ok.injEq] at h
         subst h
-        exact ⟨.push c _ bs rfl rfl hbel hsort.2 hk rfl hsub, rfl⟩
+        exact ⟨.push c _ bs rfl rfl hbel hsort.2 hk rfl, rfl⟩
     | els =>
       by_cases hel : topIsElse (b :: bs) = true
       · simp [hel] at h
@@ -196,13 +208,14 @@ theorem solveCase_effect {s s' : St} {ps : List (Nat × Comp)} {i : Nat} {kw : K
         simp only [Bool.not_eq_true] at hel
         simp only [Bool.true_and, hel, Bool.not_false, if_true, switchCase, Except.ok.injEq] at h
         subst h
-        exact ⟨.pushElse _ bs rfl rfl hbel hsort.2 hk (by rw [hopen, hc]) rfl hsub, rfl⟩
+        exact ⟨.pushElse _ bs rfl rfl hbel hsort.2 hk ⟨b.cur, hopen, hc, e3⟩ rfl, rfl⟩
     | fin =>
       simp only [if_true, List.tail_cons, Except.ok.injEq] at h
       subst h
-      exact ⟨.pop bs hbel hsort.2 hk (by rw [hopen]; simp) hsub, rfl⟩
+      exact ⟨.pop bs hbel hsort.2 hk ⟨b.cur, hopen, e3⟩, rfl⟩
     | group => simp at h
     | node m v => simp at h
+    | prop p => simp at h
 
 /-! ## the specification side -/
 
@@ -212,160 +225,156 @@ theorem lastAtMost_snoc (k : Nat) (before : List Line) (l : Line) :
     List.singleton_append, List.find?_cons]
   by_cases h : l.indent ≤ k <;> simp [h]
 
-def clauseType : Kw → Option CType
-  | .case _ => some .case
-  | .els => some .els
+def clauseInfo (l : Line) : Option (CType × List String) :=
+  match l.kw with
+  | .case _ => some (.case, l.name)
+  | .els => some (.els, l.name)
   | _ => none
 
 theorem specOpenAt_snoc (k : Nat) (before : List Line) (l : Line) :
     specOpenAt k (before ++ [l]) =
-      if l.indent ≤ k then (if l.indent = k then clauseType l.kw else none) else specOpenAt k before := by
+      if l.indent ≤ k then (if l.indent = k then clauseInfo l else none) else specOpenAt k before := by
   unfold specOpenAt
   rw [lastAtMost_snoc]
   by_cases h : l.indent ≤ k
   · simp only [h, if_true]
     by_cases h2 : l.indent = k
-    · simp only [h2, if_true]; cases l.kw <;> rfl
+    · simp only [h2, if_true, clauseInfo]; cases l.kw <;> rfl
     · simp [h2]
   · simp [h]
 
-theorem sorted_all_lt {X : List Branch} : ∀ {i : Nat}, SortedSt X → Below i X → ∀ b ∈ X, b.cur.indent < i := by
-  induction X with
-  | nil => intro i _ _ b hb; simp at hb
-  | cons c cs ih =>
-    intro i hs hX b hb
-    have hc := hX c rfl
-    rcases List.mem_cons.mp hb with rfl | hb'
-    · exact hc
-    · exact Nat.lt_trans (ih hs.2 hs.1 b hb') hc
+/-- The declared open clause (type, written parent) and the machine's open clause agree;
+    `P` = hierarchical name in front of the written parent. -/
+def Matches (P : List Comp) : Option (CType × List String) → Option Case → Prop
+  | none, o => o = none
+  | some (t, q), o => ∃ c, o = some c ∧ c.ctype = t ∧ c.path = P ++ nms q
 
-theorem popGE_register_le {j i : Nat} (h : j ≤ i) (ps : List (Nat × Comp)) (c : Comp) :
+theorem popGE_register_le {j i : Nat} (h : j ≤ i) (ps : List (Nat × List Comp)) (c : List Comp) :
     popGE j (register ps i c) = popGE j ps := by
   simp [register, popGE, h, popGE_popGE_le h]
 
 /-- The machine's stack agrees with the declarative description of the history. -/
 structure Inv (before : List Line) (s : St) : Prop where
   sorted : SortedSt s.state
-  agree : ∀ k, openAt k s.state = specOpenAt k before
-  paths : ∀ b ∈ s.state, b.cur.path = fullName (popGE b.cur.indent s.parents)
+  agree : ∀ k, Matches (fullName (popGE k s.parents)) (specOpenAt k before) (openTop k s.state)
 
 theorem inv_init : Inv [] St.init :=
-  ⟨trivial, fun k => by simp [openAt, St.init, closeGE, specOpenAt, lastAtMost],
-   fun b hb => by simp [St.init] at hb⟩
+  ⟨trivial, fun k => by simp [openTop, St.init, closeGE, specOpenAt, lastAtMost, Matches]⟩
 
 theorem inv_step {before : List Line} {s s' : St} {l : Line} {o : List Eff} (hinv : Inv before s)
     (h : step s l = .ok (s', o)) : Inv (before ++ [l]) s' := by
   obtain ⟨i, x, kw⟩ := l
-  have plain : ∀ s'', s''.state = closeGE i s.state → s''.parents = register s.parents i (.nm x) →
-      clauseType kw = none → Inv (before ++ [⟨i, x, kw⟩]) s'' := by
+  have plain : ∀ s'', s''.state = closeGE i s.state →
+      (∀ k, k < i → popGE k s''.parents = popGE k s.parents) →
+      clauseInfo ⟨i, x, kw⟩ = none → Inv (before ++ [⟨i, x, kw⟩]) s'' := by
     intro s'' hst hpar hct
-    refine ⟨hst ▸ sortedSt_closeGE i hinv.sorted, fun k => ?_, fun b hb => ?_⟩
-    · rw [hst, openAt_closeGE, specOpenAt_snoc, hinv.agree k]
-      by_cases h1 : i ≤ k <;> simp [h1, hct]
-    · rw [hst] at hb
-      have hlt := sorted_all_lt (sortedSt_closeGE i hinv.sorted) (closeGE_below i s.state) b hb
-      rw [hpar, popGE_register_le (by omega)]
-      exact hinv.paths b (mem_closeGE hb)
-  have clause : ∀ s1 n, solveCase s1 (register s.parents i (.cs n)) i kw = .ok s' → s1.state = s.state →
+    refine ⟨hst ▸ sortedSt_closeGE i hinv.sorted, fun k => ?_⟩
+    rw [hst, openTop_closeGE, specOpenAt_snoc]
+    by_cases h1 : i ≤ k
+    · simp [h1, hct, Matches]
+    · simp only [h1, if_false]
+      rw [hpar k (by omega)]
+      exact hinv.agree k
+  have clause : ∀ s1 n kw', solveCase s1 (register s.parents i (nms x ++ [.cs n])) i kw' = .ok s' →
+      s1.state = s.state → clauseInfo ⟨i, x, kw'⟩ = clauseInfo ⟨i, x, kw⟩ →
       Inv (before ++ [⟨i, x, kw⟩]) s' := by
-    intro s1 n hsol hst
+    intro s1 n kw' hsol hst hci
     obtain ⟨eff, hpar⟩ := solveCase_effect (hst ▸ hinv.sorted) hsol
     rw [hst] at eff
-    have hpath : (fullName (register s.parents i (.cs n))).dropLast = fullName (popGE i s'.parents) := by
+    have hpath : (fullName (register s.parents i (nms x ++ [.cs n]))).dropLast
+        = fullName (popGE i s'.parents) ++ nms x := by
       rw [hpar, popGE_register_le (Nat.le_refl i)]
       simp [register, path_cons]
-    have hold : ∀ X : List Branch, SortedSt X → Below i X → (∀ b ∈ X, b ∈ s.state) →
-        ∀ b ∈ X, b.cur.path = fullName (popGE b.cur.indent s'.parents) := by
-      intro X hs hX hsub b hb
-      have hlt := sorted_all_lt hs hX b hb
+    have hlow : ∀ k, k < i → popGE k s'.parents = popGE k s.parents := by
+      intro k hk
       rw [hpar, popGE_register_le (by omega)]
-      exact hinv.paths b (hsub b hb)
+    -- the three shapes share the treatment of the levels below and above `i`
+    have low : ∀ (T X : List Branch), s'.state = T → (∀ k, k < i → openTop k T = openTop k X) →
+        (∀ k, k < i → openTop k X = openTop k s.state) → ∀ k, ¬ i ≤ k →
+        Matches (fullName (popGE k s'.parents)) (specOpenAt k (before ++ [⟨i, x, kw⟩])) (openTop k s'.state) := by
+      intro T X hT h1 h2 k hk
+      rw [specOpenAt_snoc]
+      simp only [hk, if_false]
+      rw [hT, h1 k (by omega), h2 k (by omega), hlow k (by omega)]
+      exact hinv.agree k
     generalize hT : s'.state = T at eff
     cases eff with
-    | push c nb X hi ht hX hs hk hp hsub =>
-      refine ⟨hT ▸ ⟨hi ▸ hX, hs⟩, fun k => ?_, fun b hb => ?_⟩
-      · rw [hT, openAt_push k i nb X hi, specOpenAt_snoc]
-        by_cases h1 : i ≤ k
-        · simp [h1, clauseType, ht]
-        · simp only [h1, if_false]
-          rw [hk k (by omega), hinv.agree k]
-      · rw [hT] at hb
-        rcases List.mem_cons.mp hb with rfl | hb'
-        · rw [hp, hi, hpath]
-        · exact hold X hs hX hsub b hb'
-    | pushElse nb X hi ht hX hs hk _ hp hsub =>
-      refine ⟨hT ▸ ⟨hi ▸ hX, hs⟩, fun k => ?_, fun b hb => ?_⟩
-      · rw [hT, openAt_push k i nb X hi, specOpenAt_snoc]
-        by_cases h1 : i ≤ k
-        · simp [h1, clauseType, ht]
-        · simp only [h1, if_false]
-          rw [hk k (by omega), hinv.agree k]
-      · rw [hT] at hb
-        rcases List.mem_cons.mp hb with rfl | hb'
-        · rw [hp, hi, hpath]
-        · exact hold X hs hX hsub b hb'
-    | pop X hX hs hk _ hsub =>
-      refine ⟨hT ▸ hs, fun k => ?_, fun b hb => ?_⟩
-      · rw [hT, specOpenAt_snoc]
-        by_cases h1 : i ≤ k
-        · simp [h1, clauseType, openAt_below k i _ hX h1]
-        · simp only [h1, if_false]
-          rw [hk k (by omega), hinv.agree k]
-      · rw [hT] at hb
-        exact hold _ hs hX hsub b hb
+    | push c nb X hi ht hX hs hk hp =>
+      refine ⟨hT ▸ ⟨hi ▸ hX, hs⟩, fun k => ?_⟩
+      by_cases h1 : i ≤ k
+      · rw [hT, openTop_push k i nb X hi, specOpenAt_snoc, ← hci]
+        by_cases h2 : i = k
+        · subst h2
+          simp only [Nat.le_refl, if_true, clauseInfo, Matches]
+          exact ⟨nb.cur, rfl, ht, by rw [hp, hpath]⟩
+        · simp [h1, h2, Matches]
+      · exact low _ X hT (fun k hk => by rw [openTop_push k i nb X hi]; simp [Nat.not_le.mpr hk]) hk k h1
+    | pushElse nb X hi ht hX hs hk _ hp =>
+      refine ⟨hT ▸ ⟨hi ▸ hX, hs⟩, fun k => ?_⟩
+      by_cases h1 : i ≤ k
+      · rw [hT, openTop_push k i nb X hi, specOpenAt_snoc, ← hci]
+        by_cases h2 : i = k
+        · subst h2
+          simp only [Nat.le_refl, if_true, clauseInfo, Matches]
+          exact ⟨nb.cur, rfl, ht, by rw [hp, hpath]⟩
+        · simp [h1, h2, Matches]
+      · exact low _ X hT (fun k hk => by rw [openTop_push k i nb X hi]; simp [Nat.not_le.mpr hk]) hk k h1
+    | pop X hX hs hk _ =>
+      refine ⟨hT ▸ hs, fun k => ?_⟩
+      by_cases h1 : i ≤ k
+      · rw [hT, specOpenAt_snoc, ← hci, openTop_below k i _ hX h1]
+        by_cases h2 : i = k <;> simp [h1, h2, clauseInfo, Matches]
+      · exact low _ _ hT (fun k _ => rfl) hk k h1
   cases kw with
   | group =>
     simp only [step, Except.ok.injEq, Prod.mk.injEq] at h
-    exact plain s' (by rw [← h.1]) (by rw [← h.1]) rfl
+    exact plain s' (by rw [← h.1]) (fun k hk => by rw [← h.1]; exact popGE_register_le (by omega) _ _) rfl
+  | prop p =>
+    simp only [step, Except.ok.injEq, Prod.mk.injEq] at h
+    exact plain s' (by rw [← h.1]) (fun k _ => by rw [← h.1]) rfl
   | node m v =>
     simp only [step] at h
     by_cases hf : falseCase (closeGE i s.state) = true
     · simp only [hf, if_true, Except.ok.injEq, Prod.mk.injEq] at h
-      exact plain s' (by rw [← h.1]) (by rw [← h.1]) rfl
+      exact plain s' (by rw [← h.1]) (fun k hk => by rw [← h.1]; exact popGE_register_le (by omega) _ _) rfl
     · simp only [hf, Bool.false_eq_true, if_false, Except.ok.injEq, Prod.mk.injEq] at h
-      exact plain s' (by rw [← h.1]; simp [closeGE_closeGE_le (Nat.le_refl i)]) (by rw [← h.1]) rfl
+      exact plain s' (by rw [← h.1]; simp [closeGE_closeGE_le (Nat.le_refl i)])
+        (fun k hk => by rw [← h.1]; exact popGE_register_le (by omega) _ _) rfl
   | case c =>
     simp only [step] at h
-    cases hsol : solveCase { s with numCases := s.numCases + 1 } (register s.parents i (.cs (s.numCases + 1))) i (.case c) with
+    cases hsol : solveCase { s with numCases := s.numCases + 1 }
+        (register s.parents i (nms x ++ [.cs (s.numCases + 1)])) i
+        (.case (c && !falseCase (closeGE i s.state))) with
     | error e => simp [hsol] at h
     | ok s2 =>
       simp only [hsol, Except.ok.injEq, Prod.mk.injEq] at h
-      exact clause { s with numCases := s.numCases + 1 } _ (h.1 ▸ hsol) rfl
+      exact clause { s with numCases := s.numCases + 1 } _ (.case (c && !falseCase (closeGE i s.state)))
+        (h.1 ▸ hsol) rfl rfl
   | els =>
     simp only [step] at h
-    cases hsol : solveCase { s with numCases := s.numCases + 1 } (register s.parents i (.cs (s.numCases + 1))) i .els with
+    cases hsol : solveCase { s with numCases := s.numCases + 1 }
+        (register s.parents i (nms x ++ [.cs (s.numCases + 1)])) i .els with
     | error e => simp [hsol] at h
     | ok s2 =>
       simp only [hsol, Except.ok.injEq, Prod.mk.injEq] at h
-      exact clause { s with numCases := s.numCases + 1 } _ (h.1 ▸ hsol) rfl
+      exact clause { s with numCases := s.numCases + 1 } _ _ (h.1 ▸ hsol) rfl rfl
   | fin =>
     simp only [step] at h
-    cases hsol : solveCase { s with numCases := s.numCases + 1 } (register s.parents i (.cs (s.numCases + 1))) i .fin with
+    cases hsol : solveCase { s with numCases := s.numCases + 1 }
+        (register s.parents i (nms x ++ [.cs (s.numCases + 1)])) i .fin with
     | error e => simp [hsol] at h
     | ok s2 =>
       simp only [hsol, Except.ok.injEq, Prod.mk.injEq] at h
-      exact clause { s with numCases := s.numCases + 1 } _ (h.1 ▸ hsol) rfl
-
-theorem openAt_some {i : Nat} {st : List Branch} {t : CType} (h : openAt i st = some t) :
-    ∃ b bs, closeGE (i + 1) st = b :: bs ∧ b.cur.indent = i ∧ b.cur.ctype = t := by
-  unfold openAt at h
-  cases hc : closeGE (i + 1) st with
-  | nil => simp [hc] at h
-  | cons b bs =>
-    simp only [hc] at h
-    by_cases hi : b.cur.indent = i
-    · simp only [hi, if_true, Option.some.injEq] at h
-      exact ⟨b, bs, rfl, hi, h⟩
-    · simp [hi] at h
+      exact clause { s with numCases := s.numCases + 1 } _ _ (h.1 ▸ hsol) rfl rfl
 
 /-- A `@case`/`@else` continuing a block whose current clause is `@else` is refused. -/
-theorem step_after_else (s : St) (k : Nat) (x : String) (blk : Branch) (B : List Branch)
+theorem step_after_else (s : St) (k : Nat) (x : List String) (blk : Branch) (B : List Branch)
     (kw : Kw) (hkw : kw = .els ∨ ∃ c, kw = .case c)
     (hB : closeGE (k + 1) s.state = blk :: B) (hi : blk.cur.indent = k)
-    (hpath : blk.cur.path = fullName (popGE k s.parents)) (ht : blk.cur.ctype = .els) :
+    (hpath : blk.cur.path = fullName (popGE k s.parents) ++ nms x) (ht : blk.cur.ctype = .els) :
     step s ⟨k, x, kw⟩ = .error () := by
-  have hp := path_cons k (.cs (s.numCases + 1)) (popGE k s.parents)
-  have hc := closeFor_same (path := fullName (popGE k s.parents)) hB hi hpath
+  have hp := path_cons k (nms x) (.cs (s.numCases + 1)) (popGE k s.parents)
+  have hc := closeFor_same (path := fullName (popGE k s.parents) ++ nms x) hB hi hpath
   rcases hkw with rfl | ⟨c, rfl⟩ <;>
     simp [step, solveCase, hp, hc, register, topIsElse, ht]
 
@@ -378,40 +387,72 @@ theorem step_misplaced {before : List Line} {s : St} {l : Line} (hinv : Inv befo
   | ok r =>
     exfalso
     obtain ⟨s', o⟩ := r
+    have hpn : (fullName (register s.parents i (nms x ++ [.cs (s.numCases + 1)]))).dropLast
+        = fullName (popGE i s.parents) ++ nms x := by
+      simp [register, path_cons]
+    have hag := hinv.agree i
     cases kw with
     | group => simp [misplacedAt] at hm
     | node m v => simp [misplacedAt] at hm
+    | prop p => simp [misplacedAt] at hm
     | case c =>
       simp only [misplacedAt, beq_iff_eq] at hm
-      obtain ⟨b, bs, e1, e2, e3⟩ := openAt_some ((hinv.agree i).trans hm)
-      have hmem : b ∈ s.state := mem_closeGE (k := i + 1) (by rw [e1]; exact List.mem_cons_self)
-      have hpath := hinv.paths b hmem
-      rw [e2] at hpath
-      rw [step_after_else s i x b bs (.case c) (Or.inr ⟨c, rfl⟩) e1 e2 hpath e3] at hstep
+      rw [hm] at hag
+      obtain ⟨c0, ho, ht, hp⟩ := hag
+      obtain ⟨b, bs, e1, e2, e3⟩ := openTop_some ho
+      rw [step_after_else s i x b bs (.case c) (Or.inr ⟨c, rfl⟩) e1 e2 (by rw [e3, hp]) (by rw [e3, ht])] at hstep
       cases hstep
     | els =>
       simp only [step] at hstep
-      cases hsol : solveCase { s with numCases := s.numCases + 1 } (register s.parents i (.cs (s.numCases + 1))) i .els with
+      cases hsol : solveCase { s with numCases := s.numCases + 1 }
+          (register s.parents i (nms x ++ [.cs (s.numCases + 1)])) i .els with
       | error e => simp [hsol] at hstep
       | ok s2 =>
         have eff := (solveCase_effect (s := { s with numCases := s.numCases + 1 }) hinv.sorted hsol).1
         generalize s2.state = T at eff
         cases eff with
-        | pushElse nb X hi ht hX hs hk ho =>
-          have : specOpenAt i before = some .case := by rw [← hinv.agree i]; exact ho
-          simp [misplacedAt, this] at hm
+        | pushElse nb X hi ht hX hs hk ho hp =>
+          obtain ⟨c0, ho1, ho2, ho3⟩ := ho
+          simp only at ho1
+          rw [ho1] at hag
+          cases hspec : specOpenAt i before with
+          | none => rw [hspec] at hag; simp [Matches] at hag
+          | some tq =>
+            obtain ⟨t, q⟩ := tq
+            rw [hspec] at hag
+            obtain ⟨c1, e1, e2, e3⟩ := hag
+            simp only [Option.some.injEq] at e1
+            subst e1
+            have hq : q = x := by
+              rw [ho3, hpn] at e3
+              exact (nms_inj (List.append_cancel_left e3)).symm
+            have htt : t = .case := by rw [← e2, ho2]
+            simp [misplacedAt, hspec, hq, htt] at hm
     | fin =>
       simp only [step] at hstep
-      cases hsol : solveCase { s with numCases := s.numCases + 1 } (register s.parents i (.cs (s.numCases + 1))) i .fin with
+      cases hsol : solveCase { s with numCases := s.numCases + 1 }
+          (register s.parents i (nms x ++ [.cs (s.numCases + 1)])) i .fin with
       | error e => simp [hsol] at hstep
       | ok s2 =>
         have eff := (solveCase_effect (s := { s with numCases := s.numCases + 1 }) hinv.sorted hsol).1
         generalize s2.state = T at eff
         cases eff with
         | pop X hX hs hk ho =>
-          have : specOpenAt i before ≠ none := by rw [← hinv.agree i]; exact ho
-          simp [misplacedAt] at hm
-          exact this hm
+          obtain ⟨c0, ho1, ho3⟩ := ho
+          simp only at ho1
+          rw [ho1] at hag
+          cases hspec : specOpenAt i before with
+          | none => rw [hspec] at hag; simp [Matches] at hag
+          | some tq =>
+            obtain ⟨t, q⟩ := tq
+            rw [hspec] at hag
+            obtain ⟨c1, e1, e2, e3⟩ := hag
+            simp only [Option.some.injEq] at e1
+            subst e1
+            have hq : q = x := by
+              rw [ho3, hpn] at e3
+              exact (nms_inj (List.append_cancel_left e3)).symm
+            cases t <;> simp [misplacedAt, hspec, hq] at hm
 
 theorem run_misplaced {before ls : List Line} {s : St} (hinv : Inv before s)
     (hm : misplacedFrom before ls = true) : run s ls = .error () := by
